@@ -70,7 +70,12 @@ CLAIM = dict(
           "recorded random draws and set orders, both for single nets and, net by net, for route() calls with 2-6 "
           "nets (nets between the same chips with other sink vertices / cores / endpoint routes, identical nets, the "
           "same Net object twice, partially overlapping nets, a vertex that is a sink of several nets) against "
-          "routeNets; and - on the implementation's own output - validTree evaluated on EVERY net's tree against "
+          "routeNets, for large nets (30-150 sinks on 10x10..24x24 machines, radius 0-5: concentric-hexagon search, "
+          "fall-back from the source, truncation at the tree) and for extreme shapes (rings / strips up to 2100 chips "
+          "long, trees deeper than the interpreter's recursion limit, where any exception other than "
+          "MachineHasDisconnectedSubregion on a connected machine - RecursionError included - is a violation; the "
+          "model proves termination, not stack depth); and - on the implementation's own output - validTree "
+          "evaluated on EVERY net's tree against "
           "that net's own sinks, plus the check that the trees of different Net objects share no RoutingTree node "
           "object; the error clause being decided by the Lean strong-connectivity computation cross-checked against "
           "an independent Python one."),
@@ -111,7 +116,15 @@ RULE = ("machines 1x1..12x12 (incl. 1xN, 2xN), torus / mesh / partly wrapped, 0-
         "dead in one direction only), dead chips; single-net stream: one net per case with fan-out 0-12, sinks on the source chip, "
         "duplicated sinks, the source vertex as its own sink, cores / no cores / endpoint routes; radius in "
         "{0,1,2,20}; thorough adds every fault map with <= 2 dead directed links (and each single dead chip) on 2x2, "
-        "1x3, 2x3, 3x3; multi-net stream (500 quick / 15000 thorough): ONE route() call with 2-6 nets drawn from a small "
+        "1x3, 2x3, 3x3; LARGE-net stream (200 quick / 4000 thorough): machines 10x10..24x24 (torus / mesh / partly wrapped, "
+        "0-3% dead links, 0-3 dead chips), one net with 30-150 sinks drawn from rows, columns, diagonals, spokes out "
+        "of the source, clusters, random chips and sinks a few hops beyond existing ones, radius in {0,1,2,3,5}, so "
+        "that ner_net's concentric-hexagon search and its fall-back route from the source (with truncation at the "
+        "tree) are taken - tags ner_hexagon_*; exact correspondence with the model (all tie-breaks are recorded) and "
+        "the oracle; EXTREME-shape stream (6 quick / 9 thorough fixed shapes with random parameters): 2100x1 and "
+        "1x2100 rings, 1x1500 and 2100x1 mesh strips, 1200x2 torus and mesh, sinks > 1000 hops from the source, long "
+        "chains of sinks, trees > 1000 levels deep, two of them with one dead directed link on the way so that the "
+        "repair runs on a deep tree; multi-net stream (500 quick / 15000 thorough): ONE route() call with 2-6 nets drawn from a small "
         "pool of chips - same source chip and same set of sink chips but other vertices / cores / endpoint routes, "
         "identical nets, the same Net object twice, partial overlaps, shared sink vertices - non-trivial when two nets "
         "between the same chips differ in their sinks or an A* detour occurred. A single-net case is non-trivial when the dead-link repair ran with at least one A* detour or the net "
@@ -225,21 +238,37 @@ def forest_of_lookup(lookup):
     return out
 
 
-def nest(node, budget):
-    """nested serialisation of the object graph under `node`; the budget bounds the number of
-    RoutingTree expansions so that shared nodes / cycles give a finite tree (with repeated chips)"""
+def flat_tree(root, budget):
+    """Flat pre-order serialisation of the object graph under `root`:
+    [[x, y, [[dir, child_index], ...], [[route, vertex], ...]], ...], entry 0 = root, child indices larger than
+    the parent's.  Iterative (routing trees may be thousands of hops deep); `budget` bounds the number of
+    RoutingTree expansions so that shared nodes / cycles give a finite tree (with repeated chips)."""
     from rig.place_and_route.routing_tree import RoutingTree
-    budget[0] -= 1
-    subs, leaves = [], []
-    for r, ch in node.children:
-        if isinstance(ch, RoutingTree):
-            if budget[0] > 0:
-                subs.append([enc_dir(r), nest(ch, budget)])
+    out = []
+
+    def entry(node):
+        out.append([node.chip[0], node.chip[1], [], []])
+        return len(out) - 1
+
+    budget -= 1
+    stack = [(entry(root), iter(list(root.children)))]
+    while stack:
+        idx, it = stack[-1]
+        descended = False
+        for r, ch in it:
+            if isinstance(ch, RoutingTree):
+                j = entry(ch)
+                out[idx][2].append([enc_dir(r), j])
+                if budget > 0:
+                    budget -= 1
+                    stack.append((j, iter(list(ch.children))))
+                    descended = True
+                    break
             else:
-                subs.append([enc_dir(r), [ch.chip[0], ch.chip[1], [], []]])
-        else:
-            leaves.append([None if r is None else int(r), ch])
-    return [node.chip[0], node.chip[1], subs, leaves]
+                out[idx][3].append([None if r is None else int(r), ch])
+        if not descended:
+            stack.pop()
+    return out
 
 
 def err_name(e):
@@ -320,8 +349,32 @@ def run_impl(case):
         rec["lookup"] = lookup
         return root, lookup
 
+    # which neighbour search each destination of ner_net used (observed from outside: the per-node scan calls a
+    # path-length function for every route node, the concentric-hexagon spiral calls none), and whether the route
+    # to it started at the source because nothing was within `radius` hops
+    cur = dict(dist_calls=0, source=tuple(place[0]), radius=net["radius"])
+    rec["branches"] = []
+    o_geo = (ner.longest_dimension_first, ner.shortest_mesh_path_length, ner.shortest_torus_path_length)
+
+    def w_mesh_len(a, b):
+        cur["dist_calls"] += 1
+        return o_geo[1](a, b)
+
+    def w_torus_len(a, b, w, h):
+        cur["dist_calls"] += 1
+        return o_geo[2](a, b, w, h)
+
+    def w_ldf(vector, start, width, height):
+        path = o_geo[0](vector, start, width, height)
+        rec["branches"].append(("hex" if cur["dist_calls"] == 0 else "scan",
+                                tuple(start) == cur["source"] and len(path) > cur["radius"], len(path)))
+        cur["dist_calls"] = 0
+        return path
+
     geometry.random, rutils.random = fake, fake
     ner.ner_net, ner.copy_and_disconnect_tree, ner.a_star, ner.avoid_dead_links = w_ner_net, w_copy, w_a_star, w_avoid
+    ner.longest_dimension_first, ner.shortest_mesh_path_length, ner.shortest_torus_path_length = \
+        w_ldf, w_mesh_len, w_torus_len
     try:
         try:
             routes = ner.route({v: {} for v in place}, [the_net], machine, constraints, place, allocations,
@@ -333,6 +386,7 @@ def run_impl(case):
     finally:
         (geometry.random, rutils.random, ner.ner_net, ner.copy_and_disconnect_tree, ner.a_star,
          ner.avoid_dead_links) = orig
+        ner.longest_dimension_first, ner.shortest_mesh_path_length, ner.shortest_torus_path_length = o_geo
     root = routes[the_net]
     lookup = rec["lookup"]
     forest = forest_of_lookup(lookup)
@@ -349,7 +403,7 @@ def run_impl(case):
             leaves["%d,%d" % chip] = lv
     budget = [2 * mach["w"] * mach["h"] + 10]
     res = {"ok": dict(forest=forest, root=list(root.chip), leaves=leaves, alias=alias,
-                      root_is_lookup=lookup.get(root.chip) is root, tree=nest(root, budget))}
+                      root_is_lookup=lookup.get(root.chip) is root, tree=flat_tree(root, budget[0]))}
     return res, rec
 
 
@@ -417,7 +471,7 @@ def eval_cases(ctx, cases):
         reqs.append(mreq(mach, op="route", source=src, dests=dests, radius=net["radius"], tape=rec["tape"],
                          order=rec["order"], sinks=sinks_json(net), legacy=False))
         if "ok" in res:
-            reqs.append(mreq(mach, op="valid_tree", source=src, sinks=sinks_json(net), tree=res["ok"]["tree"]))
+            reqs.append(mreq(mach, op="valid_tree", source=src, sinks=sinks_json(net), flat=res["ok"]["tree"]))
         for call in rec["astar_calls"]:
             if "path" in call:
                 reqs.append(mreq(mach, op="path_ok", sink=call["sink"], sources=call["sources"], path=call["path"]))
@@ -497,8 +551,12 @@ def eval_cases(ctx, cases):
             ctx.tag("err_disconnected")
         else:
             ctx.violation("undocumented-exception",
-                          "route() raised %s (%s); the only permitted failure is MachineHasDisconnectedSubregion"
-                          % (res["err"], res.get("msg")), c)
+                          "route() raised %s (%s) on a %dx%d machine (%d dead links, %d dead chips, working chips %s "
+                          "connected), source chip %r, %d sinks, radius %d, ner_net tree of %s nodes; the only "
+                          "permitted failure is MachineHasDisconnectedSubregion"
+                          % (res["err"], res.get("msg"), mach["w"], mach["h"], len(mach["dead_links"]),
+                             len(mach["dead_chips"]), "strongly" if strong else "NOT strongly", net["place"]["0"],
+                             len(net["sinks"]), net["radius"], len(rec["ner"]) if rec["ner"] is not None else "?"), c)
             ctx.tag("err_" + res["err"])
         # --- distribution
         ctx.tag("wrap" if rec["wrap"] else "nowrap")
@@ -511,6 +569,22 @@ def eval_cases(ctx, cases):
         ndest = len(rec["dests"] or [])
         if rec["ner"] is not None and len(rec["ner"]) > 3 * (3 * net["radius"] * (net["radius"] + 1) + 1):
             ctx.tag("hexagon_search_possible")
+        br = rec.get("branches") or []
+        if any(b[0] == "hex" for b in br):
+            ctx.tag("ner_hexagon_spiral_search")
+        if any(b[0] == "hex" and b[1] for b in br):
+            ctx.tag("ner_hexagon_search_fell_back_to_source")
+        if any(b[0] == "scan" and b[1] for b in br):
+            ctx.tag("ner_node_scan_fell_back_to_source")
+        if rec["ner"] is not None and 1 + sum(b[2] for b in br) > len(rec["ner"]):
+            ctx.tag("ner_route_truncated_at_tree")
+        if any(b[0] == "hex" and b[1] for b in br) and rec["ner"] is not None and \
+                1 + sum(b[2] for b in br) > len(rec["ner"]):
+            ctx.tag("ner_hexagon_fallback_and_truncation")
+        if rec["ner"] is not None and len(rec["ner"]) > 990:
+            ctx.tag("tree_with_more_than_990_nodes")
+        if c.get("stream"):
+            ctx.tag("stream_" + c["stream"])
         if rec["paths"]:
             ctx.tag("astar_detours")
             if any(len(p) > 1 for p in rec["paths"]):
@@ -524,6 +598,153 @@ def eval_cases(ctx, cases):
         if len(rec["tape"]) % 7 and rec["wrap"]:
             ctx.tag("spiral_randint")
         ctx.case(c, bool(rec["paths"]) or ndest >= 3)
+
+
+# --------------------------------------------------------------------------------------------
+# LARGE nets: big trees on 10x10 .. 24x24 machines, small radii, so that ner_net's concentric-hexagon search
+# (used once the tree has more than 3 * (3r(r+1)+1) nodes) and its fall-back route from the source are taken
+SIZES_L = [(10, 10), (12, 12), (12, 10), (14, 14), (16, 16), (16, 11), (20, 20), (24, 24), (24, 12)]
+
+
+def gen_large_machine(rng):
+    w, h = rng.choice(SIZES_L)
+    kind = rng.choice(["torus", "mesh", "mesh", "partial"])
+    dead_links = set()
+    for x in range(w):
+        for y in range(h):
+            for l, (dx, dy) in enumerate(VECS):
+                if not (0 <= x + dx < w and 0 <= y + dy < h):
+                    if kind == "mesh" or (kind == "partial" and rng.random() < 0.5):
+                        dead_links.add((x, y, l))
+    p = rng.choice([0, 0, 0, 0.01, 0.03])
+    if p:
+        for x in range(w):
+            for y in range(h):
+                for l, (dx, dy) in enumerate(VECS):
+                    if rng.random() < p:
+                        dead_links.add((x, y, l))
+                        if rng.random() < 0.5:
+                            dead_links.add(((x + dx) % w, (y + dy) % h, (l + 3) % 6))
+    chips = [(x, y) for x in range(w) for y in range(h)]
+    dead_chips = set(rng.sample(chips, rng.choice([0, 0, 0, 1, 3])))
+    return dict(w=w, h=h, dead_chips=sorted(map(list, dead_chips)), dead_links=sorted(map(list, dead_links)))
+
+
+def gen_large_net(rng, mach):
+    w, h = mach["w"], mach["h"]
+    dead = set(map(tuple, mach["dead_chips"]))
+    live = [(x, y) for x in range(w) for y in range(h) if (x, y) not in dead]
+    corner = [c for c in [(0, 0), (w - 1, 0), (0, h - 1), (w // 2, h // 2)] if c in live]
+    src = rng.choice(corner) if corner and rng.random() < 0.6 else rng.choice(live)
+    want = rng.randint(30, 150)
+    chips = []
+    while len(chips) < want:
+        pat = rng.choice(["random", "row", "column", "diagonal", "cluster", "spokes", "far"])
+        if pat == "random":
+            chips += [rng.choice(live) for _ in range(rng.randint(5, 40))]
+        elif pat == "row":
+            y, x0, n, st = rng.randrange(h), rng.randrange(w), rng.randint(5, w), rng.choice([1, 1, 2])
+            chips += [((x0 + i * st) % w, y) for i in range(n)]
+        elif pat == "column":
+            x, y0, n, st = rng.randrange(w), rng.randrange(h), rng.randint(5, h), rng.choice([1, 1, 2])
+            chips += [(x, (y0 + i * st) % h) for i in range(n)]
+        elif pat == "diagonal":
+            x0, y0, n, sg = rng.randrange(w), rng.randrange(h), rng.randint(5, max(w, h)), rng.choice([1, -1])
+            chips += [((x0 + i) % w, (y0 + sg * i) % h) for i in range(n)]
+        elif pat == "spokes":
+            # rays out of the source: along x, along y, along the diagonal (the tree then runs along them)
+            n = rng.randint(5, max(w, h) - 1)
+            for (dx, dy) in rng.sample([(1, 0), (0, 1), (1, 1), (-1, 0), (0, -1), (-1, -1)], rng.randint(2, 4)):
+                chips += [((src[0] + dx * k) % w, (src[1] + dy * k) % h) for k in range(1, n + 1)
+                          if 0 <= src[0] + dx * k < w and 0 <= src[1] + dy * k < h or rng.random() < 0.3]
+        elif pat == "cluster":
+            cx, cy, r = rng.randrange(w), rng.randrange(h), rng.randint(1, 3)
+            chips += [((cx + rng.randint(-r, r)) % w, (cy + rng.randint(-r, r)) % h) for _ in range(rng.randint(5, 25))]
+        else:
+            # a few sinks a little beyond the end of something that is already there
+            if chips:
+                bx, by = rng.choice(chips)
+                k = rng.randint(2, 6)
+                dx, dy = rng.choice(VECS)
+                chips.append(((bx + dx * k) % w, (by + dy * k) % h))
+    chips = [c for c in chips if c not in dead][:want]
+    place = {0: list(src)}
+    kinds = {0: [1, 0, 1]}
+    sinks = []
+    for c in chips:
+        v = len(place)
+        place[v] = list(c)
+        kinds[v] = [1, 1, 2] if rng.random() < 0.9 else gen_kind(rng)
+        sinks.append(v)
+    return dict(place={str(k): v for k, v in place.items()}, kinds={str(k): v for k, v in kinds.items()},
+                sinks=sinks, radius=rng.choice([0, 1, 2, 2, 2, 3, 3, 5]))
+
+
+def gen_large(ctx, n):
+    out = []
+    for _ in range(n):
+        mach = gen_large_machine(ctx.rng)
+        out.append(dict(machine=mach, net=gen_large_net(ctx.rng, mach), rseed=ctx.rng.randrange(1 << 30),
+                        stream="large_net"))
+    return out
+
+
+# --------------------------------------------------------------------------------------------
+# EXTREME shapes: very long / thin machines, sinks more than 1000 hops away, trees more than 1000 levels deep
+def strip_machine(w, h, torus, dead_links=()):
+    dl = set(map(tuple, dead_links))
+    if not torus:
+        for x in range(w):
+            for y in range(h):
+                for l, (dx, dy) in enumerate(VECS):
+                    if not (0 <= x + dx < w and 0 <= y + dy < h):
+                        dl.add((x, y, l))
+    return dict(w=w, h=h, dead_chips=[], dead_links=sorted(map(list, dl)))
+
+
+def strip_net(chips, src, radius, kind=(1, 1, 2)):
+    place = {0: list(src)}
+    kinds = {0: [1, 0, 1]}
+    sinks = []
+    for c in chips:
+        v = len(place)
+        place[v] = list(c)
+        kinds[v] = list(kind)
+        sinks.append(v)
+    return dict(place={str(k): v for k, v in place.items()}, kinds={str(k): v for k, v in kinds.items()},
+                sinks=sinks, radius=radius)
+
+
+def extreme_cases(ctx):
+    rng = ctx.rng
+    cases = []
+
+    def add(mach, chips, src, radius):
+        cases.append(dict(machine=mach, net=strip_net(chips, src, radius), rseed=rng.randrange(1 << 30),
+                          stream="extreme_shape"))
+
+    # a single sink 1040 hops round a fault-free 2100 x 1 ring
+    add(strip_machine(2100, 1, True), [(1040, 0)], (0, 0), 20)
+    # a chain of sinks along a 1 x 1500 mesh strip (every route continues the previous one)
+    step = rng.choice([7, 19, 40])
+    add(strip_machine(1, 1500, False), [(0, y) for y in range(step, 1500, step)] + [(0, 1499)], (0, 0),
+        rng.choice([0, 1, 20]))
+    # 1200 x 2 torus: far sinks on both rows
+    add(strip_machine(1200, 2, True), [(590, 1), (300, 0), (597, 0), (rng.randrange(400, 599), rng.randrange(2))],
+        (0, 0), rng.choice([0, 2, 20]))
+    # 1200 x 2 mesh: the whole length, source at a random end
+    e = rng.choice([0, 1199])
+    add(strip_machine(1200, 2, False), [(1199 - e, 1), (1199 - e, 0), (600, rng.randrange(2))] +
+        [(x, rng.randrange(2)) for x in range(50, 1150, rng.choice([97, 211]))], (e, 0), rng.choice([0, 1, 5, 20]))
+    if not ctx.quick:
+        add(strip_machine(1, 2100, True), [(0, 1049)], (0, 0), 0)
+        add(strip_machine(2100, 1, False), [(2099, 0), (1000, 0)], (0, 0), 3)
+        add(strip_machine(1500, 1, False), [(x, 0) for x in range(0, 1500, 13)], (1499, 0), 1)
+    # deep trees AND the dead-link repair: one dead directed link on the way (the machine stays strongly
+    # connected: the ring can be walked the other way round / the other row is intact)
+    add(strip_machine(2100, 1, True, [(5, 0, 0)]), [(1040, 0)], (0, 0), 20)
+    add(strip_machine(1200, 2, False, [(30, 0, 0)]), [(1150, 0)], (0, 0), 20)
+    return cases
 
 
 # --------------------------------------------------------------------------------------------
@@ -718,7 +939,7 @@ def run_impl_multi(case):
     for o in objs:
         root = routes[o]
         roots.append(root)
-        trees.append(nest(root, [2 * mach["w"] * mach["h"] + 10]))
+        trees.append(flat_tree(root, 2 * mach["w"] * mach["h"] + 10))
         ids.append(node_ids(root, limit))
     return {"ok": dict(trees=trees, ids=ids, roots=roots, objs=objs), "tape": tape}, recs
 
@@ -740,7 +961,7 @@ def eval_multi(ctx, cases):
         if "ok" in res:
             for n, tree in zip(c["nets"], res["ok"]["trees"]):
                 reqs.append(mreq(mach, op="valid_tree", source=c["place"][str(n["source"])],
-                                 sinks=multi_sinks_json(c, n), tree=tree))
+                                 sinks=multi_sinks_json(c, n), flat=tree))
         for rec in recs:
             for call in rec["astar_calls"]:
                 if "path" in call:
@@ -966,6 +1187,8 @@ def run(ctx):
     ctx.assumptions += [
         "vertices of a net are placed on working chips, core allocations are non-empty slices within 0..18, endpoint "
         "routes are members of Routes (what place()/allocate() and the constraint classes produce)",
+        "the model proves termination (fuel never exhausted) but does not model the interpreter's stack: that route() "
+        "does not raise RecursionError on deep trees is validated by the extreme-shape stream (trees up to ~2100 levels)",
         "independence of the nets of one call is a theorem about the model (routeNets_independent) and is validated "
         "on the code by the multi-net stream (per-net oracle, per-net correspondence, no shared node objects)",
         "whole-net validity and the error clause are proved for the Lean model on every machine (routeNet_valid, "
@@ -984,6 +1207,10 @@ def run(ctx):
         cases += exhaustive_small(ctx)
     for i in range(0, len(cases), 2000):
         eval_cases(ctx, cases[i:i + 2000])
+    large = gen_large(ctx, ctx.scale(200, 4000) * (4 if ctx.extended and ctx.quick else 1))
+    for i in range(0, len(large), 500):
+        eval_cases(ctx, large[i:i + 500])
+    eval_cases(ctx, extreme_cases(ctx))
     nm = ctx.scale(500, 15000) * (4 if ctx.extended and ctx.quick else 1)
     multi = [gen_multi(ctx.rng, gen_machine(ctx.rng, SIZES_Q)) for _ in range(nm)]
     for i in range(0, len(multi), 1000):
